@@ -26,6 +26,7 @@ type harness struct {
 	nrun  int
 	nviol int
 	ndis  int
+	ncrashLoop int
 	end   time.Time // no new work is started after this
 }
 
@@ -308,37 +309,52 @@ func (h *harness) process(scripts []*Script) {
 		if cr != nil {
 			// a crash: the conversations in flight are suspects; everything not finished is re-queued
 			h.ctx.Dist("child-crash")
-			suspects := map[int]bool{}
-			for _, i := range cr.inflight {
-				suspects[i] = true
-			}
-			var requeue []*Script
-			for k, i := range cr.inflight {
-				if k >= 8 || h.nviol >= 6 || time.Now().After(h.end) { // enough suspects tried; the others go back into the queue below
-					delete(suspects, i)
-					continue
-				}
-				_, _, c2 := h.solo(cur[i])
-				if c2 != nil {
-					h.violate(cur[i], "no-panic", panicKey(c2.stderr), "the client crashed the process:\n"+c2.stderr)
-					h.ctx.CountOnly(cur[i].key(), true)
-				} else {
-					requeue = append(requeue, cur[i])
-				}
-			}
 			if len(cr.inflight) == 0 {
 				h.ctx.Note("child died without a conversation in flight: " + cr.stderr)
 				continue
 			}
-			// the rest of the batch ran partially; run the unfinished part again without the culprits
+			// the conversations in flight are suspects: run them again one after the other in one child;
+			// the one in flight when that child dies is the culprit (confirmed alone once more)
+			culprit := map[int]bool{}
+			rest := append([]int{}, cr.inflight...)
+			for len(rest) > 0 && h.nviol < 6 && !time.Now().After(h.end) {
+				var again []*Script
+				for _, i := range rest {
+					again = append(again, cur[i])
+				}
+				_, c1, err1 := h.runBatch(again, 1)
+				if err1 != nil || c1 == nil || len(c1.inflight) == 0 {
+					break // no crash any more (or the machinery failed): the others are innocent
+				}
+				k := c1.inflight[0]
+				i := rest[k]
+				if _, _, c2 := h.solo(cur[i]); c2 != nil {
+					h.violate(cur[i], "no-panic", panicKey(c2.stderr), "the client crashed the process:\n"+c2.stderr)
+				} else {
+					h.violate(cur[i], "no-panic", panicKey(c1.stderr)+":not-alone", "the client crashed the process (not reproduced when run alone):\n"+c1.stderr)
+				}
+				h.ctx.CountOnly(cur[i].key(), true)
+				culprit[i] = true
+				rest = rest[k+1:]
+			}
+			// everything that did not finish is run again, without the culprits
+			var requeue []*Script
 			for i, sc := range cur {
-				if !suspects[i] {
+				if !culprit[i] {
 					requeue = append(requeue, sc)
 				}
 			}
 			if h.nviol >= 6 {
 				h.ctx.Note("stopped after repeated crashes of the client")
 				return
+			}
+			if len(culprit) == 0 {
+				h.ctx.Note("a batch crashed but no conversation crashed when run again: " + cr.stderr)
+				h.ncrashLoop++
+				if h.ncrashLoop >= 3 {
+					h.violate(cur[cr.inflight[0]], "no-panic", panicKey(cr.stderr)+":unattributed", "the client crashed the process in a parallel batch three times; no single conversation reproduces it:\n"+cr.stderr)
+					return
+				}
 			}
 			scripts = append(requeue, scripts...)
 			continue
